@@ -606,12 +606,26 @@ def _ret_range(func, call):
         return None
     if not summ:
         return None
-    vals = []
+    lo, hi = None, None
     for subst, hyps, rl in summ:
-        if rl is None or not rl.is_const():
+        if rl is None:
             return None
-        vals.append(rl.k)
-    return (min(vals), max(vals))
+        if rl.is_const():
+            a = b = int(rl.k)
+        else:
+            # a computed return: the tightest small constants that bound it on this exit
+            a = b = None
+            for cand in range(0, 17):
+                if b is None and prove_le(rl, Lin(k=cand), hyps) == PROVEN:
+                    b = cand
+            for cand in range(16, -1, -1):
+                if a is None and prove_le(Lin(k=cand), rl, hyps) == PROVEN:
+                    a = cand
+            if a is None or b is None:
+                return None
+        lo = a if lo is None else min(lo, a)
+        hi = b if hi is None else max(hi, b)
+    return (lo, hi)
 
 
 def _counter_bound(func, h, body, v):
